@@ -1907,6 +1907,11 @@ func (p *Parser) parseExpressionSuffix(left IExpr, prec, precLeft OpPrec) IExpr 
 			return nil
 		}
 
+		if p.prevLT && precLeft <= OpAssign && (p.tt == OpenBracketToken || p.tt == OpenParenToken || p.tt == TemplateToken || p.tt == TemplateStartToken || p.tt == AddToken || p.tt == SubToken || p.tt == DivToken || p.tt == DivEqToken) {
+			// a yield or arrow function expression cannot be continued, the token after the line terminator starts a new statement (automatic semicolon insertion)
+			return left
+		}
+
 		switch tt := p.tt; tt {
 		case EqToken, MulEqToken, DivEqToken, ModEqToken, ExpEqToken, AddEqToken, SubEqToken, LtLtEqToken, GtGtEqToken, GtGtGtEqToken, BitAndEqToken, BitXorEqToken, BitOrEqToken, AndEqToken, OrEqToken, NullishEqToken:
 			if OpAssign < prec {
